@@ -174,6 +174,28 @@ def rule_filters(rep, prog, rid='R16.filter'):
     rep.ob(rid, 'switch_ground_node', True if ok else (None if br is None or has_opaque(br) else False), f'branches = {br!r:.100}', f.site)
 
 
+def _one_pass_rename(ev, f, t):
+    """the result's branches are ONE comprehension whose terminals are `M.get(b.nodeK, b.nodeK)` with M a dict comprehension over the branch
+    list whose keys and values are terminals of the generated short itself (no lookup into a map, nothing carried): returns the reason."""
+    br = t.f.get('branches') if isinstance(t, Rec) else None
+    if not (isinstance(br, Comp) and isinstance(br.elt, Rec) and br.elt.cls == 'Branch'): return None
+    branches = ev.getattr(A('network'), 'branches', f.mod, 0)
+    b0 = ev.elem_of(branches, 0)
+    hits = []
+    for nm in ('node1', 'node2'):
+        v = br.elt.f.get(nm)
+        if not (isinstance(v, Opq) and len(v.k) == 4 and v.k[0] == 'get'): return None
+        D, key, dflt = v.k[1], v.k[2], v.k[3]
+        if not (isinstance(D, Comp) and D.kind == 'dict' and isinstance(D.elt, (tuple, list)) and len(D.elt) == 2): return None
+        if not (term_equal(key, ev.getattr(b0, nm, f.mod, 0)) and term_equal(key, dflt)): return None
+        if not all(term_equal(g[0], branches) for g in D.gens): return None
+        kk = repr(tkey(D.elt[0])) + repr(tkey(D.elt[1]))
+        if "'get'" in kk or "'carried'" in kk or has_opaque(D.elt[0]) or has_opaque(D.elt[1]): return None
+        hits.append(nm)
+    return (f'every terminal is renamed by ONE lookup `M.get(b.{hits[0]}, b.{hits[0]})` in a map with one absorbed->retained entry per short and nothing '
+            'iterates: a chain of shorts (the retained node of one is the absorbed node of another) is not followed to its end')
+
+
 def rule_rename(rep, prog, rid='R16.rename'):
     """short contraction: per absorbed/retained pair every branch is rewritten terminal-wise, self-loops dropped; absorbed node is never the reference"""
     f = prog.func(NT, 'remove_short_circuit_elements')
@@ -182,6 +204,12 @@ def rule_rename(rep, prog, rid='R16.rename'):
     site = f.site
     red = ev.reductions[-1] if ev.reductions else None
     if not ev.loops and red is None:
+        why = _one_pass_rename(ev, f, t)
+        if why:
+            # nothing iterates: every terminal is looked up ONCE in a map that holds one (absorbed -> retained) step per short.  That is the
+            # relation, not its closure: for chained shorts 1 -S1- 2 -S2- 3 the map is {1: 2, 2: 3}; a branch at node 1 lands on node 2, which
+            # was itself absorbed into node 3 -- the contracted network falls apart.  The sequential form renames the *already renamed* list.
+            rep.ob(rid, 'contraction:closure', False, why, site); return
         rep.ob(rid, 'contraction:loop', None, 'no sequential contraction loop found', site); return
     branches = ev.getattr(A('network'), 'branches', f.mod, 0)
     b0 = ev.elem_of(branches, 0)
@@ -273,4 +301,7 @@ def rule_rename(rep, prog, rid='R16.rename'):
     sp_step = spec(ev, "[Branch(rn if b.node1 == an else b.node1, rn if b.node2 == an else b.node2, b.element) for b in B "
                        "if (rn if b.node1 == an else b.node1) != (rn if b.node2 == an else b.node2)]", envs, m)
     c = compare_comps(step, sp_step)
+    if c is False and (has_opaque(step) or 'ext(' in repr(step)):
+        # a step built through a call the engine does not interpret (e.g. dataclasses.replace) cannot be refuted by comparing terms
+        c = None
     rep.ob(rid, 'contraction:step', c, f'step = {step!r:.300}', site, lhs=step, rhs=sp_step)
